@@ -3,15 +3,17 @@ package relq
 import (
 	"fmt"
 	"math"
+	"strings"
 
 	"verifharness/lib"
 )
 
 // Field of a relation as the generator sees it (what a column reference may use and what it yields).
 type Field struct {
-	Qual string // "" when the field has no qualifier (a WITH name's aliased column)
-	Name string
-	T    Kind
+	Qual  string // "" when the field has no qualifier (a WITH name's aliased column)
+	Name  string
+	T     Kind
+	NoRef bool // never referenced by the generator (a generated name that is also a function name, ...)
 }
 
 // Profile steers the generator.
@@ -19,14 +21,26 @@ type Profile struct {
 	GroupBias   int // of 10: how often a select is a grouping select
 	MaxDepth    int // nesting of subqueries
 	AllowErrors bool
+	AliasShapes bool // grouping select lists without aliases / with repeated aliases / aliases equal to generated names
+	AllowTriple bool // ... including three columns of one name (finding class c03-triple-name on the tree without the fix)
+	TriggerBias int  // of 10: how often a grouping select carries a TRIGGER clause
+	Simple      bool // tables of short plain cells (every output mode can be parsed back)
+	SimpleEvery int  // every n-th case uses Simple tables
+	OrderLimit  bool // the ORDER BY + LIMIT family: duplicate rows, every limit from 0 to one past the row count
+	Logic       bool // the three-valued-logic family: WHERE / select expressions over nullable and non-nullable columns
+	Nested      bool // the nested-relation family: an outer select reading part of a DISTINCT / grouping / limited relation
 }
 
 var edgeInts = []int64{0, 1, -1, 2, 3, 5, 7, -7, 10, 42, math.MaxInt64, math.MinInt64, math.MaxInt64 - 1, math.MinInt64 + 1, 1 << 32, -(1 << 31), 4611686018427387904}
 var smallInts = []int64{0, 1, 2, 3, -1}
 
+// sums and averages beyond 2^53 (not representable in a float64), near the int64 limits
+var bigInts = []int64{9007199254740993, -9007199254740993, 6000000000000000007, math.MaxInt64, math.MinInt64 + 1, 4611686018427387905, 9007199254740992 * 3, 1, 2, -1}
+
 // strings a CSV cell can hold without being read as NULL, a number, a boolean or a time
 var csvStrings = []string{"a", "b", "ab", "A", "aa", "Ab", "z", "é", "日本", "a b", "%d", "%s%%", "x,y", "q\"q", "l1\nl2", "tab\tx", "ab\xffc", "\xfe", "x'y", "100%", "%!v"}
 var smallStrings = []string{"a", "b", "é"}
+var simpleStrings = []string{"a", "b", "ab"}
 
 // JSON tables additionally hold the empty string
 var jsonStrings = []string{"", "a", "b", "ab", "A", "é", "日本", "a b", "%d", "%v%%", "x,y", "q\"q", "l1\nl2", "back\\slash", "z"}
@@ -40,6 +54,17 @@ type Gen struct {
 	Tables []*Table
 	ctes   []cteInfo
 	nalias int
+	// set while generating
+	Triggers   []*Query // selects carrying a TRIGGER clause
+	TripleName bool     // some grouping select has three columns of one name
+	Shapes     map[string]int
+}
+
+func (g *Gen) shape(k string) {
+	if g.Shapes == nil {
+		g.Shapes = map[string]int{}
+	}
+	g.Shapes[k]++
 }
 
 type cteInfo struct {
@@ -57,7 +82,7 @@ func (g *Gen) GenTables() {
 	r := g.R
 	n := 1 + r.Intn(2)
 	for ti := 0; ti < n; ti++ {
-		isJSON := r.Chance(1, 4)
+		isJSON := r.Chance(1, 4) && !g.P.Simple
 		t := &Table{}
 		if isJSON {
 			t.Name = fmt.Sprintf("t%d.json", ti+1)
@@ -85,7 +110,8 @@ func (g *Gen) GenTables() {
 		default:
 			nrows = 2 + r.Intn(7)
 		}
-		small := r.Chance(1, 2) // small domains: duplicates, equal keys
+		small := r.Chance(1, 2) || g.P.Simple // small domains: duplicates, equal keys
+		big := !small && r.Chance(1, 2)
 		nullRate := 1 + r.Intn(3)
 		for i := 0; i < nrows; i++ {
 			if i > 0 && r.Chance(1, 5) {
@@ -102,6 +128,8 @@ func (g *Gen) GenTables() {
 				case KInt:
 					if small {
 						row[c] = Int(smallInts[r.Intn(len(smallInts))])
+					} else if big {
+						row[c] = Int(bigInts[r.Intn(len(bigInts))])
 					} else if r.Chance(3, 4) {
 						row[c] = Int(edgeInts[r.Intn(len(edgeInts))])
 					} else {
@@ -111,6 +139,8 @@ func (g *Gen) GenTables() {
 					row[c] = Bool(r.Bool())
 				case KStr:
 					switch {
+					case g.P.Simple:
+						row[c] = Str(simpleStrings[r.Intn(len(simpleStrings))])
 					case small:
 						row[c] = Str(smallStrings[r.Intn(len(smallStrings))])
 					case isJSON:
@@ -151,7 +181,7 @@ func tableAlias(name string) string {
 func pick(r *lib.Rng, fs []Field, ok func(Field) bool) (Field, bool) {
 	var c []Field
 	for _, f := range fs {
-		if ok(f) {
+		if ok(f) && !f.NoRef {
 			c = append(c, f)
 		}
 	}
@@ -226,7 +256,45 @@ func (g *Gen) GenExpr(fs []Field, k Kind, depth int) Expr {
 			// fall through to a comparison of leaves
 			depth = 1
 		}
-		switch r.Intn(8) {
+		switch r.Intn(9) {
+		case 8:
+			// a strict function (NOT, =) over an AND / OR with one operand that can be NULL (a comparison on a
+			// column) and one that cannot (IS [NOT] NULL, a literal, a comparison of literals)
+			var p Expr = Lit{Null()}
+			if f, ok := pick(r, fs, func(f Field) bool { return f.T == KInt || f.T == KStr || f.T == KBool }); ok {
+				switch f.T {
+				case KInt:
+					p = Bin{[]string{"<", ">=", "="}[r.Intn(3)], g.colRef(f), g.intLit()}
+				case KStr:
+					p = Bin{[]string{"<", ">=", "!="}[r.Intn(3)], g.colRef(f), Lit{Str(litStrings[r.Intn(len(litStrings))])}}
+				default:
+					p = g.colRef(f)
+				}
+			}
+			var q Expr
+			switch r.Intn(3) {
+			case 0:
+				q = Lit{Bool(r.Chance(3, 4))}
+			case 1:
+				q = Bin{"<=", Lit{Int(int64(r.Intn(3)))}, Lit{Int(int64(r.Intn(3)))}}
+			default:
+				if f, ok := pick(r, fs, func(f Field) bool { return f.T != KList }); ok {
+					q = Un{[]string{"isnull", "isnotnull"}[r.Intn(2)], g.colRef(f)}
+				} else {
+					q = Lit{Bool(true)}
+				}
+			}
+			if r.Bool() {
+				p, q = q, p
+			}
+			var e Expr = And{p, q}
+			if r.Chance(1, 3) {
+				e = Or{p, q}
+			}
+			if r.Chance(3, 4) {
+				return Un{"not", e}
+			}
+			return Bin{"=", e, Lit{Bool(r.Bool())}}
 		case 0, 1, 2:
 			kk := []Kind{KInt, KInt, KStr, KBool}[r.Intn(4)]
 			op := []string{"=", "!=", "<", "<=", ">", ">="}[r.Intn(6)]
@@ -283,7 +351,7 @@ func (g *Gen) genSource(depth int) srcInfo {
 		q, out, ordered, _ := g.GenQuery(depth-1, false)
 		fs := make([]Field, len(out))
 		for i := range out {
-			fs[i] = Field{Qual: alias, Name: out[i].Name, T: out[i].T}
+			fs[i] = Field{Qual: alias, Name: out[i].Name, T: out[i].T, NoRef: out[i].NoRef}
 		}
 		return srcInfo{Source{Kind: "sub", Sub: q, Alias: alias}, fs, ordered}
 	case len(g.ctes) > 0 && r.Chance(1, 3):
@@ -368,7 +436,10 @@ func (g *Gen) GenQuery(depth int, top bool) (*Query, []Field, bool, bool) {
 			a := g.fresh("g")
 			it := Item{Alias: a}
 			var t Kind
-			switch r.Intn(9) {
+			switch r.Intn(10) {
+			case 9:
+				it.Agg, it.E, t = "avg", g.GenExpr(fs, KInt, 0), KInt
+				it.Dist = r.Chance(1, 3)
 			case 0:
 				it.Agg, it.CStar, it.E, t = "count", true, Lit{Bool(true)}, KInt
 			case 1:
@@ -395,19 +466,53 @@ func (g *Gen) GenQuery(depth int, top bool) (*Query, []Field, bool, bool) {
 			j := r.Intn(i + 1)
 			sels[i], sels[j] = sels[j], sels[i]
 		}
-		for _, s := range sels {
-			q.Items = append(q.Items, s.it)
+		items := make([]Item, len(sels))
+		for i := range sels {
+			items[i] = sels[i].it
+		}
+		names, noref := g.nameGroupingItems(items, q.GroupBy)
+		for i, s := range sels {
+			s.f.Name, s.f.NoRef = names[i], noref[i]
+			q.Items = append(q.Items, items[i])
 			out = append(out, s.f)
+		}
+		if g.P.TriggerBias > 0 && r.Intn(10) < g.P.TriggerBias {
+			q.Trigger = []string{"COUNTING 1", "COUNTING 1", "COUNTING 2", "COUNTING 3", "COUNTING 2, ON END OF STREAM", "ON END OF STREAM"}[r.Intn(6)]
+			g.Triggers = append(g.Triggers, q)
+			g.shape("trigger " + q.Trigger)
 		}
 		distinctRows = allKeys
 	} else {
-		if r.Chance(1, 8) {
+		if si.src.Kind != "table" && len(fs) >= 2 && r.Chance(2, 5) {
+			// projection of a strict subset of the columns of a nested relation
+			k := 1 + r.Intn(len(fs)-1)
+			start := r.Intn(len(fs))
+			for j := 0; j < k; j++ {
+				f := fs[(start+j)%len(fs)]
+				if f.NoRef {
+					continue
+				}
+				a := g.fresh("c")
+				q.Items = append(q.Items, Item{E: g.colRef(f), Alias: a})
+				out = append(out, Field{Name: a, T: f.T})
+			}
+			g.shape("subset projection of a nested relation")
+			if sub := si.src.Sub; sub != nil && !sub.Distinct && r.Chance(1, 2) {
+				sub.Distinct = true // DISTINCT over more columns than the outer select reads
+				g.shape("nested DISTINCT")
+			}
+		}
+		if len(q.Items) > 0 {
+		} else if r.Chance(1, 8) {
 			q.Items = []Item{{Star: true}}
 			for _, f := range fs {
 				out = append(out, Field{Name: f.Name, T: f.T})
 			}
 		} else {
 			n := 1 + r.Intn(4)
+			if !top && n < 2 {
+				n = 2 + r.Intn(2)
+			}
 			for i := 0; i < n; i++ {
 				if r.Chance(1, 12) && !hasStar(q.Items) {
 					q.Items = append(q.Items, Item{Star: true})
@@ -433,9 +538,14 @@ func (g *Gen) GenQuery(depth int, top bool) (*Query, []Field, bool, bool) {
 			}
 		}
 	}
-	if r.Chance(1, 4) {
+	// nested selects (subquery in FROM, WITH) are DISTINCT more often and have >= 2 columns: the outer select then
+	// usually reads a strict subset of the columns of a DISTINCT / grouping / ORDER BY+LIMIT relation
+	if r.Chance(1, 4) || (!top && r.Chance(1, 4)) {
 		q.Distinct = true
 		distinctRows = true
+		if !top {
+			g.shape("nested DISTINCT")
+		}
 	}
 	ordered := si.ordered && !grouping
 	if r.Chance(2, 5) {
@@ -454,14 +564,24 @@ func (g *Gen) GenQuery(depth int, top bool) (*Query, []Field, bool, bool) {
 	}
 	if len(q.OrderBy) > 0 {
 		ordered = true
-		// ORDER BY + LIMIT only over rows that are distinct by construction (the pinned tree counts
-		// distinct rows there: C05's defect)
-		if distinctRows && r.Chance(1, 2) {
-			n := int64(1 + r.Intn(5))
+		if r.Chance(1, 2) {
+			n := int64(r.Intn(6)) // 0 included
 			q.Limit = &n
+			if !top {
+				// Inside a subquery / WITH the cut must not fall between rows that differ only in columns the
+				// outer select may not read: the optimizer prunes such columns and the tie order at the cut
+				// (which SQL leaves open) changes.  Every output column becomes a key.
+				for _, f := range out {
+					if f.T == KList || f.NoRef {
+						q.Limit = nil
+						break
+					}
+					q.OrderBy = append(q.OrderBy, OrderKey{E: Col{Name: f.Name}, Desc: r.Bool()})
+				}
+			}
 		}
 	} else if ordered && r.Chance(1, 4) {
-		n := int64(1 + r.Intn(5)) // never LIMIT 0 (C05's defect on the pinned tree)
+		n := int64(r.Intn(6))
 		q.Limit = &n
 	}
 	return q, out, ordered, distinctRows
@@ -490,7 +610,23 @@ func (g *Gen) GenTop() *Top {
 		copy(fs, out) // fields of a WITH name keep the names its select gave them, without a qualifier
 		g.ctes = append(g.ctes, cteInfo{name, fs})
 	}
-	t.Main, _, _, _ = g.GenQuery(g.P.MaxDepth, true)
+	var out []Field
+	t.Main, out, _, _ = g.GenQuery(g.P.MaxDepth, true)
+	// a TRIGGER clause makes the plan emit retractions; -o json consolidates them only through the
+	// OrderSensitiveTransform, so such a statement gets a top-level ORDER BY (or loses its triggers)
+	if len(g.Triggers) > 0 && len(t.Main.OrderBy) == 0 {
+		if f, ok := pick(r, out, func(f Field) bool { return f.T != KList }); ok {
+			t.Main.OrderBy = []OrderKey{{E: Col{Name: f.Name}, Desc: r.Bool()}}
+			if t.Main.Limit != nil && r.Bool() {
+				t.Main.Limit = nil
+			}
+		} else {
+			for _, q := range g.Triggers {
+				q.Trigger = ""
+			}
+			g.Triggers = nil
+		}
+	}
 	return t
 }
 
@@ -531,4 +667,355 @@ func (g *Gen) sourceFieldNames(s Source) []string {
 		}
 	}
 	return nil
+}
+
+// ---- names of a grouping select list ----
+
+// parser.ParseSelect's getUniqueName (after the fix for three columns of one name: the requested name's counter
+// advances and the suffixed candidate is checked as well).
+type uniqueNamer map[string]int
+
+func (n uniqueNamer) get(name string) string {
+	for {
+		count, used := n[name]
+		n[name] = count + 1
+		if !used {
+			return name
+		}
+		name = fmt.Sprintf("%s_%d", name, count)
+	}
+}
+
+var aggWords = map[string]bool{"count": true, "sum": true, "avg": true, "min": true, "max": true, "array_agg": true,
+	"count_distinct": true, "sum_distinct": true, "avg_distinct": true, "array_agg_distinct": true}
+
+// generatedName is the name the parser gives an item written without AS.
+func generatedName(it Item, keys []Expr) string {
+	if it.Agg != "" {
+		agg := it.Agg
+		if it.Dist {
+			agg += "_distinct"
+		}
+		if c, ok := it.E.(Col); ok && !it.CStar {
+			return agg + "_" + c.Name
+		}
+		return agg
+	}
+	if c, ok := it.E.(Col); ok {
+		return c.Name
+	}
+	for i, k := range keys {
+		if k.Coq() == it.E.Coq() {
+			return fmt.Sprintf("key_%d", i)
+		}
+	}
+	return "key_0"
+}
+
+// nameGroupingItems decides how each item of a grouping select list is written (fresh alias, no alias, an alias
+// that repeats another column's name) and returns the column names the parser derives, in select order.
+func (g *Gen) nameGroupingItems(items []Item, keys []Expr) ([]string, []bool) {
+	r := g.R
+	n := len(items)
+	base := make([]string, n)
+	for i := range items {
+		base[i] = items[i].Alias // fresh
+		if g.P.AliasShapes && r.Chance(1, 3) {
+			items[i].NoAlias = true
+			base[i] = generatedName(items[i], keys)
+			g.shape("item without alias")
+		}
+	}
+	mult := func(b string) int {
+		c := 0
+		for _, x := range base {
+			if x == b {
+				c++
+			}
+		}
+		return c
+	}
+	if g.P.AliasShapes && n >= 2 && r.Chance(1, 3) {
+		// an explicit alias that repeats another column's alias or generated name
+		j := r.Intn(n)
+		i := (j + 1 + r.Intn(n-1)) % n
+		target := base[i]
+		if r.Chance(1, 3) {
+			target = generatedName(items[i], keys) // the name the other item would have had without its alias
+		}
+		if !strings.HasPrefix(target, "key_") && base[j] != target && mult(target) <= 1 {
+			items[j].NoAlias, items[j].SQLAlias, base[j] = false, target, target
+			g.shape("alias repeating another column's name")
+		}
+	}
+	if g.P.AllowTriple && n >= 3 && r.Chance(1, 10) {
+		target := base[r.Intn(n)]
+		if !strings.HasPrefix(target, "key_") {
+			c := 0
+			for j := range items {
+				if base[j] != target && c < 2 {
+					items[j].NoAlias, items[j].SQLAlias, base[j] = false, target, target
+					c++
+				}
+			}
+			g.shape("three columns of one name")
+		}
+	}
+	un := uniqueNamer{}
+	names := make([]string, n)
+	noref := make([]bool, n)
+	for i := range items {
+		names[i] = un.get(base[i])
+		if mult(base[i]) >= 3 {
+			g.TripleName = true
+		}
+		items[i].Alias = names[i]
+		if !items[i].NoAlias && items[i].SQLAlias == "" && names[i] != base[i] {
+			items[i].SQLAlias = base[i]
+		}
+		noref[i] = aggWords[names[i]] || mult(base[i]) >= 3
+	}
+	return names, noref
+}
+
+// GenOrderLimitTop: ORDER BY k [ASC|DESC] LIMIT n over a table with runs of fully equal rows, n running through
+// 0 .. rows+1 with the case index (so that the n-th row falls inside, at the end of, and past a run); a third of
+// the cases have the ORDER BY + LIMIT inside a subquery.
+func (g *Gen) GenOrderLimitTop(i int) *Top {
+	r := g.R
+	t := &Table{Name: "t1.csv", Cols: []string{"a", "b"}, Types: []Kind{KInt, KStr}}
+	distinct := 1 + r.Intn(3)
+	var pool [][]Val
+	for k := 0; k < distinct; k++ {
+		row := []Val{Int(int64(r.Intn(3))), Str(simpleStrings[r.Intn(len(simpleStrings))])}
+		if r.Chance(1, 6) {
+			row[0] = Null()
+		}
+		pool = append(pool, row)
+	}
+	nrows := 3 + r.Intn(5)
+	for k := 0; k < nrows; k++ {
+		t.Rows = append(t.Rows, append([]Val(nil), pool[r.Intn(len(pool))]...))
+	}
+	for c := 0; c < 2; c++ {
+		has := false
+		for _, row := range t.Rows {
+			if row[c].K != KNull {
+				has = true
+			}
+		}
+		if !has {
+			t.Rows[0][c] = []Val{Int(1), Str("a")}[c]
+		}
+	}
+	g.Tables = []*Table{t}
+	n := int64(i % (nrows + 2))
+	inner := &Query{From: Source{Kind: "table", Table: t.Name, Alias: "t1"}}
+	a1, a2 := g.fresh("c"), g.fresh("c")
+	inner.Items = []Item{{E: Col{Name: "a"}, Alias: a1}, {E: Col{Name: "b"}, Alias: a2}}
+	if r.Chance(1, 3) {
+		inner.Items = inner.Items[:1]
+	}
+	key := inner.Items[r.Intn(len(inner.Items))].Alias
+	inner.OrderBy = []OrderKey{{E: Col{Name: key}, Desc: r.Bool()}}
+	inner.Limit = &n
+	g.shape(fmt.Sprintf("order_limit n-rows=%+d", int(n)-nrows))
+	if i%3 != 2 {
+		return &Top{Main: inner}
+	}
+	x := g.fresh("x")
+	outer := &Query{From: Source{Kind: "sub", Sub: inner, Alias: x}}
+	outer.Items = []Item{{E: Col{Qual: x, Name: inner.Items[0].Alias}, Alias: g.fresh("c")}}
+	if r.Bool() {
+		outer.OrderBy = []OrderKey{{E: Col{Name: outer.Items[0].Alias}, Desc: r.Bool()}}
+		m := int64(r.Intn(nrows + 1))
+		outer.Limit = &m
+	}
+	return &Top{Main: outer}
+}
+
+// GenNestedTop: a DISTINCT / GROUP BY / ORDER BY+LIMIT / filtered select over a small table whose rows agree on some
+// columns and differ on others, as a subquery in FROM or a WITH table, under an outer select that reads a strict
+// subset of its columns (optionally with WHERE, DISTINCT, ORDER BY).  What the inner relation is must not depend
+// on what the outer select reads.
+func (g *Gen) GenNestedTop(i int) *Top {
+	r := g.R
+	t := &Table{Name: "t1.csv", Cols: []string{"a", "b", "c"}, Types: []Kind{KInt, KStr, KInt}}
+	nrows := 4 + r.Intn(5)
+	for k := 0; k < nrows; k++ {
+		row := []Val{Int(int64(r.Intn(2))), Str(simpleStrings[r.Intn(2)]), Int(int64(r.Intn(3)))}
+		for c := range row {
+			if r.Chance(1, 8) {
+				row[c] = Null()
+			}
+		}
+		if k > 0 && r.Chance(1, 4) {
+			row = append([]Val(nil), t.Rows[r.Intn(k)]...)
+		}
+		t.Rows = append(t.Rows, row)
+	}
+	t.Rows[0] = []Val{Int(0), Str("a"), Int(1)}
+	g.Tables = []*Table{t}
+	from := Source{Kind: "table", Table: t.Name, Alias: "t1"}
+	inner := &Query{From: from}
+	var out []Field
+	add := func(col string, k Kind) {
+		a := g.fresh("c")
+		inner.Items = append(inner.Items, Item{E: Col{Name: col}, Alias: a})
+		out = append(out, Field{Name: a, T: k})
+	}
+	kind := i % 4
+	switch kind {
+	case 0:
+		inner.Distinct = true
+		add("a", KInt)
+		add("b", KStr)
+		add("c", KInt)
+	case 1:
+		inner.GroupBy = []Expr{Col{Name: "a"}, Col{Name: "b"}}
+		add("a", KInt)
+		add("b", KStr)
+		a := g.fresh("g")
+		inner.Items = append(inner.Items, Item{Agg: "count", CStar: true, E: Lit{Bool(true)}, Alias: a})
+		out = append(out, Field{Name: a, T: KInt})
+	case 2:
+		add("a", KInt)
+		add("b", KStr)
+		add("c", KInt)
+		// a total order: the optimizer prunes what the outer select does not read, which may reorder ties
+		inner.OrderBy = []OrderKey{{E: Col{Name: out[2].Name}, Desc: r.Bool()}, {E: Col{Name: out[0].Name}, Desc: r.Bool()}, {E: Col{Name: out[1].Name}, Desc: r.Bool()}}
+		n := int64(r.Intn(nrows + 1))
+		inner.Limit = &n
+	default:
+		inner.Distinct = true
+		add("a", KInt)
+		add("b", KStr)
+		inner.Where = Un{"isnotnull", Col{Name: "c"}}
+	}
+	g.shape([]string{"nested DISTINCT", "nested GROUP BY", "nested ORDER BY+LIMIT", "nested DISTINCT+WHERE"}[kind] + " under a subset projection")
+	top := &Top{}
+	var fs []Field
+	var src Source
+	if i%8 >= 4 {
+		top.CTEs = []CTE{{"w1", inner}}
+		src = Source{Kind: "cte", Table: "w1"}
+		fs = out
+	} else {
+		x := g.fresh("x")
+		src = Source{Kind: "sub", Sub: inner, Alias: x}
+		for _, f := range out {
+			fs = append(fs, Field{Qual: x, Name: f.Name, T: f.T})
+		}
+	}
+	outer := &Query{From: src}
+	k := 1 + r.Intn(len(fs)-1)
+	start := r.Intn(len(fs))
+	var read []Field
+	for j := 0; j < k; j++ {
+		f := fs[(start+j)%len(fs)]
+		read = append(read, f)
+		outer.Items = append(outer.Items, Item{E: g.colRef(f), Alias: g.fresh("c")})
+	}
+	switch r.Intn(4) {
+	case 0:
+		f := fs[r.Intn(len(fs))] // read or not read by the select list
+		if f.T == KInt {
+			outer.Where = Bin{[]string{"=", "<", ">="}[r.Intn(3)], g.colRef(f), Lit{Int(int64(r.Intn(2)))}}
+		} else {
+			outer.Where = Bin{"=", g.colRef(f), Lit{Str("a")}}
+		}
+	case 1:
+		outer.Distinct = true
+	}
+	if r.Chance(1, 3) {
+		outer.OrderBy = []OrderKey{{E: Col{Name: outer.Items[0].Alias}, Desc: r.Bool()}}
+	}
+	top.Main = outer
+	_ = read
+	return top
+}
+
+
+// GenLogicTop: WHERE keeps TRUE only.  A table with columns that hold NULLs (a, s, f) and columns that never do
+// (b, d); boolean expressions of depth <= 3 built from comparisons on both kinds of column, IS [NOT] NULL, literals,
+// NOT, AND, OR, = TRUE|FALSE, used as the WHERE predicate and as a select expression.
+func (g *Gen) GenLogicTop(i int) *Top {
+	r := g.R
+	t := &Table{Name: "t1.csv", Cols: []string{"a", "b", "s", "f", "d"}, Types: []Kind{KInt, KInt, KStr, KBool, KBool}}
+	nrows := 5 + r.Intn(4)
+	for k := 0; k < nrows; k++ {
+		row := []Val{Int(int64(r.Intn(3))), Int(int64(r.Intn(3))), Str(simpleStrings[r.Intn(2)]), Bool(r.Bool()), Bool(r.Bool())}
+		for _, c := range []int{0, 2, 3} {
+			if r.Chance(2, 5) {
+				row[c] = Null()
+			}
+		}
+		t.Rows = append(t.Rows, row)
+	}
+	t.Rows[0] = []Val{Null(), Int(1), Str("a"), Bool(true), Bool(true)}
+	t.Rows[1] = []Val{Int(0), Int(0), Null(), Null(), Bool(false)}
+	g.Tables = []*Table{t}
+	col := func(n string) Expr {
+		if r.Chance(1, 4) {
+			return Col{Qual: "t1", Name: n}
+		}
+		return Col{Name: n}
+	}
+	atom := func() Expr {
+		switch r.Intn(11) {
+		case 0:
+			return Bin{[]string{"<", ">=", "="}[r.Intn(3)], col("a"), Lit{Int(int64(r.Intn(3)))}}
+		case 1:
+			return Bin{[]string{"=", "!=", "<="}[r.Intn(3)], col("a"), col("b")}
+		case 2:
+			return Bin{[]string{"=", "!=", "<"}[r.Intn(3)], col("s"), Lit{Str(simpleStrings[r.Intn(2)])}}
+		case 3:
+			return col("f")
+		case 4:
+			return Bin{"=", col("f"), col("d")}
+		case 5:
+			return Bin{[]string{">=", "<", "="}[r.Intn(3)], col("b"), Lit{Int(int64(r.Intn(3)))}}
+		case 6:
+			return col("d")
+		case 7:
+			return Un{"isnull", col([]string{"a", "s", "f", "b"}[r.Intn(4)])}
+		case 8:
+			return Un{"isnotnull", col([]string{"a", "s", "f", "d"}[r.Intn(4)])}
+		case 9:
+			return Lit{Bool(r.Chance(3, 4))}
+		default:
+			return Bin{"<=", Lit{Int(int64(r.Intn(3)))}, Lit{Int(int64(r.Intn(3)))}}
+		}
+	}
+	var gen func(d int) Expr
+	gen = func(d int) Expr {
+		if d <= 0 || r.Chance(1, 5) {
+			return atom()
+		}
+		switch r.Intn(10) {
+		case 0, 1, 2:
+			return Un{"not", gen(d - 1)}
+		case 3, 4, 5:
+			return And{gen(d - 1), gen(d - 1)}
+		case 6, 7:
+			return Or{gen(d - 1), gen(d - 1)}
+		case 8:
+			return Bin{[]string{"=", "!="}[r.Intn(2)], gen(d - 1), Lit{Bool(r.Bool())}}
+		default:
+			return Un{[]string{"isnull", "isnotnull"}[r.Intn(2)], gen(d - 1)}
+		}
+	}
+	q := &Query{From: Source{Kind: "table", Table: t.Name, Alias: "t1"}}
+	q.Items = []Item{{E: Col{Name: "a"}, Alias: g.fresh("c")}, {E: Col{Name: "b"}, Alias: g.fresh("c")}}
+	switch i % 3 {
+	case 0:
+		q.Where = gen(3)
+	case 1:
+		q.Items = append(q.Items, Item{E: gen(3), Alias: g.fresh("c")})
+	default:
+		q.Where = gen(2)
+		q.Items = append(q.Items, Item{E: gen(3), Alias: g.fresh("c")})
+	}
+	g.shape("three-valued logic family")
+	return &Top{Main: q}
 }
